@@ -17,20 +17,20 @@ import (
 
 // World executes operation lines against the real package.
 type World struct {
-	files   map[int]*memfile.File
-	stores  map[int]*gkvlite.Store
-	sfile   map[int]int
-	ro      map[int]bool
-	rmark   map[int]int
-	cfg     int // callback configuration bits for stores opened from now on
-	rc      *refCounter
-	churn   []*gkvlite.Store
-	dropped int
+	files     map[int]*memfile.File
+	stores    map[int]*gkvlite.Store
+	sfile     map[int]int
+	ro        map[int]bool
+	rmark     map[int]int
+	cfg       int // callback configuration bits for stores opened from now on
+	rc        *refCounter
+	churn     []*gkvlite.Store
+	dropped   int
 	abandoned []*gkvlite.Store
 	lastFired bool
 	concYield func()
-	dead    bool // a hang happened: the process state is no longer trustworthy
-	opTimeo time.Duration
+	dead      bool // a hang happened: the process state is no longer trustworthy
+	opTimeo   time.Duration
 }
 
 func newWorld() *World {
